@@ -173,6 +173,16 @@ func (m *MessageStore) processMessageLoop(ctx context.Context, tracer *messageMe
 			// we dont know the chain key yet, add message to the device cache
 			device.queue.Add(message)
 			_ = m.emitters.groupCacheMessage.Emit(*message)
+
+			// the chain key may have been registered between the lookup above
+			// and the Add: ProcessMessageQueueForDevicePK then found an empty
+			// cache and nobody else would ever re-inject this message
+			m.muDeviceCaches.RLock()
+			knownNow := device.hasKnownChainKey
+			m.muDeviceCaches.RUnlock()
+			if knownNow {
+				m.processDeviceMessagesInQueue(device)
+			}
 			continue
 		}
 
